@@ -1,6 +1,7 @@
 package main
 
 import (
+	"context"
 	"fmt"
 	"reflect"
 	"sync"
@@ -27,6 +28,9 @@ import (
 //	rcall-race     a call is queued and handed over exactly while the poll is at its idle time-out
 //	               (Reverse.tla: the counterexample of Reverse_bug_idle.cfg, NoStuckPoll/NoDeadLetter)
 //	rcall-stale    a call is queued between a poll that timed out and the next poll (NoDeadLetter)
+//	rcall-script   a scripted provider fetches rounds of three concurrent calls and reports them in seeded
+//	               order: with an index nobody waits for and a long-answered one in the middle of the
+//	               batch, after one caller has given up, one by one, and twice (foreign payloads)
 //	rcall-wake     a call is queued between a poll's empty check and the registration of its
 //	               responder (Reverse.tla: the counterexample of Reverse_bug_wake.cfg, NoSleepingCall)
 //
@@ -152,9 +156,156 @@ func parked(g *gate.Controller, point string, wait time.Duration) *gate.Hold {
 	}
 }
 
+// revProvider is a scripted provider: it speaks the reverse protocol itself ("!" fetches the queued calls,
+// "=" reports results), so that the harness decides what is reported, in which order and how often.
+type revProvider struct {
+	Begin func() ([][]interface{}, error)     `name:"!"`
+	End   func(results [][]interface{}) error `name:"="`
+}
+
+func revInt(v interface{}) int {
+	switch x := v.(type) {
+	case int:
+		return x
+	case int64:
+		return int(x)
+	}
+	return -1
+}
+
+// invokeCtx is invoke with a deadline of its own; expected says that the deadline is shorter than the
+// scripted provider's delay, so that the error is the call's proper outcome.
+func (e *revEnv) invokeCtx(cc, n int, deadline time.Duration, expected bool, bound int) {
+	e.t.Emit(tr.Rec{"ev": "callB", "c": cc, "n": n})
+	t0 := time.Now()
+	ctx, cancel := context.WithTimeout(context.Background(), deadline)
+	defer cancel()
+	res, err := e.caller.InvokeContext(ctx, "prov1", "echo", []interface{}{muxPayload(cc, n)}, reflect.TypeOf(""))
+	r := muxRet{kind: "resp", rc: -1, rn: -1}
+	if err != nil {
+		r = muxRet{kind: "err", err: err.Error()}
+	} else if len(res) == 1 {
+		if s, ok := res[0].(string); ok {
+			if rc, rn, ok := muxParse([]byte(s)); ok {
+				r.rc, r.rn = rc, rn
+			}
+		}
+	}
+	e.t.Emit(tr.Rec{"ev": "ret", "c": cc, "n": n, "kind": r.kind, "rc": r.rc, "rn": r.rn, "ms": int(time.Since(t0) / time.Millisecond), "bound": bound, "err": r.err, "expected": expected && r.kind == "err"})
+}
+
+// c09ReverseScript: rounds of three concurrent calls against the scripted provider.
+func c09ReverseScript(t *tr.Writer, c c09Case) {
+	rng := tr.NewRng(c.Seed)
+	e, err := newRevEnv(t, c, 0, 2*time.Second, nil)
+	if err != nil {
+		t.Emit(tr.Rec{"ev": "setup-failed", "err": err.Error()})
+		return
+	}
+	defer e.close()
+	sp := &revProvider{}
+	e.client.UseService(sp)
+	type fetched struct {
+		index int
+		arg   string
+	}
+	old := []fetched{}
+	for round := 1; round <= c.Calls; round++ {
+		shape := []string{"stray", "giveup", "split", "dup"}[(round-1)%4]
+		var wg sync.WaitGroup
+		for cc := 1; cc <= 3; cc++ {
+			wg.Add(1)
+			go func(cc int) {
+				defer wg.Done()
+				if shape == "giveup" && cc == 1+round%3 {
+					// this caller gives up while its call is with the provider
+					e.invokeCtx(cc, round, 40*time.Millisecond, true, 1000)
+					return
+				}
+				e.invokeCtx(cc, round, 2*time.Second, false, 2500)
+			}(cc)
+		}
+		// fetch until the three calls of the round are here (they are queued concurrently)
+		var batch []fetched
+		for tries := 0; len(batch) < 3 && tries < 50; tries++ {
+			time.Sleep(2 * time.Millisecond)
+			calls, err := sp.Begin()
+			if err != nil {
+				t.Emit(tr.Rec{"ev": "setup-failed", "err": "scripted poll: " + err.Error()})
+				wg.Wait()
+				return
+			}
+			for _, cl := range calls {
+				if len(cl) == 3 {
+					if args, ok := cl[2].([]interface{}); ok && len(args) == 1 {
+						a, _ := args[0].(string)
+						batch = append(batch, fetched{revInt(cl[0]), a})
+					}
+				}
+			}
+		}
+		if shape == "giveup" {
+			time.Sleep(80 * time.Millisecond) // one caller gives up meanwhile
+		}
+		mk := func(f fetched) []interface{} { return []interface{}{f.index, f.arg, ""} }
+		report := func(rs [][]interface{}) {
+			if err := sp.End(rs); err != nil {
+				t.Emit(tr.Rec{"ev": "setup-failed", "err": "scripted report: " + err.Error()})
+			}
+		}
+		for _, f := range batch {
+			if cc, n, ok := muxParse([]byte(f.arg)); ok {
+				t.Emit(tr.Rec{"ev": "answer", "c": cc, "n": n})
+			}
+		}
+		// seeded order of the batch
+		for i := len(batch) - 1; i > 0; i-- {
+			j := rng.Intn(i + 1)
+			batch[i], batch[j] = batch[j], batch[i]
+		}
+		switch shape {
+		case "stray":
+			// an index nobody waits for, and one that was answered rounds ago (with a foreign payload), in
+			// the middle of the batch
+			rs := [][]interface{}{{1000000 + round, "c9-n9", ""}}
+			for i, f := range batch {
+				rs = append(rs, mk(f))
+				if i == 0 && len(old) > 0 {
+					rs = append(rs, []interface{}{old[rng.Intn(len(old))].index, "c8-n8", ""})
+				}
+			}
+			report(rs)
+		case "giveup":
+			rs := [][]interface{}{}
+			for _, f := range batch {
+				rs = append(rs, mk(f))
+			}
+			report(rs)
+		case "split":
+			for _, f := range batch {
+				report([][]interface{}{mk(f)})
+			}
+		case "dup":
+			rs := [][]interface{}{}
+			for _, f := range batch {
+				rs = append(rs, mk(f))
+			}
+			report(rs)
+			for i := range rs {
+				rs[i] = []interface{}{rs[i][0], "c7-n7", ""} // the same indexes again, foreign payloads
+			}
+			report(rs)
+		}
+		wg.Wait()
+		old = append(old, batch...)
+	}
+}
+
 func c09Reverse(t *tr.Writer, id int, c c09Case) {
 	rng := tr.NewRng(c.Seed)
 	switch c.Mode {
+	case "rcall-script":
+		c09ReverseScript(t, c)
 	case "rcall", "rcall-idle":
 		delays := make([]int, 4096)
 		for i := range delays {
